@@ -95,13 +95,20 @@ impl std::str::FromStr for FourCC {
     type Err = Error;
 
     fn from_str(s: &str) -> Result<Self> {
-        if let [a, b, c, d] = s.as_bytes() {
-            Ok(Self {
-                value: [*a, *b, *c, *d],
-            })
-        } else {
-            Err(Error::InvalidData("expected exactly four bytes in string"))
+        // One character per byte (ISO-8859-1), the inverse of `Display`, so that
+        // codes with bytes >= 0x80 such as "\u{a9}nam" have a textual form too.
+        let mut value = [0u8; 4];
+        let mut chars = s.chars();
+        for byte in value.iter_mut() {
+            *byte = chars
+                .next()
+                .and_then(|c| u8::try_from(u32::from(c)).ok())
+                .ok_or(Error::InvalidData("expected exactly four bytes in string"))?;
         }
+        if chars.next().is_some() {
+            return Err(Error::InvalidData("expected exactly four bytes in string"));
+        }
+        Ok(Self { value })
     }
 }
 
@@ -148,7 +155,11 @@ impl fmt::Debug for FourCC {
 
 impl fmt::Display for FourCC {
     fn fmt(&self, f: &mut fmt::Formatter) -> fmt::Result {
-        write!(f, "{}", String::from_utf8_lossy(&self.value[..]))
+        // One character per byte (ISO-8859-1): lossless for every code.
+        for byte in self.value.iter() {
+            write!(f, "{}", char::from(*byte))?;
+        }
+        Ok(())
     }
 }
 
